@@ -70,7 +70,7 @@ pub fn file_case(g: FileGen) -> BoxedStrategy<FileCase> {
 /// "more than 64 points in a part" are only reachable with sizes the skewed generator rarely draws.
 pub fn large_file_case(nan_zm: bool) -> BoxedStrategy<FileCase> {
     let fins = prop_oneof![2 => Just(0u32), 1 => any::<u32>()];
-    (gen::ty13(), ctor(), finish(), fins, 0u8..10, gen::profile_mix())
+    (gen::ty13(), ctor(), finish(), fins, 0u8..12, gen::profile_mix())
         .prop_flat_map(move |(ty, ctor, fin, mid_fins, mode, prof)| {
             // mode 0-1: many records of tiny shapes; 2-3: few shapes with many parts; 4-5: few shapes with many points;
             // 6: one shape with 1000-1100 points in a part; 7: one shape with 500-530 parts; 8-9: 4097-4300 points in a part
@@ -80,7 +80,9 @@ pub fn large_file_case(nan_zm: bool) -> BoxedStrategy<FileCase> {
                 4 | 5 => (1usize..=3, 3usize, 300usize),
                 6 => (1usize..=1, 2usize, 1100usize),
                 7 => (1usize..=1, 530usize, 2usize),
-                _ => (1usize..=2, 2usize, 4300usize),
+                8 | 9 => (1usize..=2, 2usize, 4300usize),
+                10 => (1usize..=1, 1usize, 66_000usize),
+                _ => (1usize..=1, 66_000usize, 1usize),
             };
             let cfg = gen::GenCfg::new(prof, nan_zm, parts, pts);
             let g = match mode {
@@ -89,7 +91,10 @@ pub fn large_file_case(nan_zm: bool) -> BoxedStrategy<FileCase> {
                 4 | 5 => gen::geom_sized(ty, cfg, 1..=3, 70..=pts),
                 6 => gen::geom_sized(ty, cfg, 1..=2, 1000..=pts),
                 7 => gen::geom_sized(ty, cfg, 500..=parts, 0..=2),
-                _ => gen::geom_sized(ty, cfg, 1..=2, 4097..=pts),
+                8 | 9 => gen::geom_sized(ty, cfg, 1..=2, 4097..=pts),
+                // counts that do not fit 16 bits
+                10 => gen::geom_sized(ty, cfg, 1..=1, 65_537..=pts),
+                _ => gen::geom_sized(ty, cfg, 65_537..=parts, 0..=1),
             };
             proptest::collection::vec(g, n).prop_map(move |geoms| FileCase {
                 ty,
@@ -111,7 +116,9 @@ pub fn bufio_file_case() -> BoxedStrategy<FileCase> {
     (gen::ty13(), ctor(), finish(), prop_oneof![Just(0u32), any::<u32>()], gen::profile_mix())
         .prop_flat_map(|(ty, ctor, fin, mid_fins, prof)| {
             let cfg = gen::GenCfg::new(prof, true, 2, 3);
-            proptest::collection::vec(gen::geom(ty, cfg), 2500..=7000).prop_map(move |geoms| FileCase {
+            // one file in eight holds more than 65536 records
+            let n = prop_oneof![7 => 2500usize..=7000, 1 => 65_600usize..=66_500];
+            n.prop_flat_map(move |n| proptest::collection::vec(gen::geom(ty, cfg), n)).prop_map(move |geoms| FileCase {
                 ty,
                 ctor,
                 fin,
@@ -127,7 +134,7 @@ pub fn bufio_file_case() -> BoxedStrategy<FileCase> {
 pub fn sizes(env: &Env) -> (usize, usize, usize) {
     // (max shapes per file, max parts, max points per part)
     if env.thorough() {
-        (120, 12, 400)
+        (60, 10, 200)
     } else {
         (40, 8, 60)
     }
@@ -156,6 +163,22 @@ pub fn scratch_dir() -> PathBuf {
         }
         s.clone().unwrap()
     })
+}
+
+/// A scratch path for a path-based route: the stem and the extension's case vary with `salt`, and the files
+/// that a previous, LONGER export would have left there are created first (a writer must replace them).
+pub fn scratch_shp(tag: &str, salt: usize) -> PathBuf {
+    let stems = ["plain", "UPPER", "with.dots.in.name", "with space", "ünïcode"];
+    let exts = ["shp", "SHP", "Shp"];
+    let p = scratch_dir().join(format!("{}-{}.{}", tag, stems[salt % stems.len()], exts[(salt / stems.len()) % exts.len()]));
+    if salt % 4 == 0 {
+        let junk = vec![0xABu8; 24_000];
+        for e in ["shx", "dbf"] {
+            let _ = std::fs::write(p.with_extension(e), &junk);
+        }
+        let _ = std::fs::write(&p, &junk);
+    }
+    p
 }
 
 pub fn cleanup_scratch() {
